@@ -21,6 +21,11 @@ Theorem C16_list_common : forall a b x, In x (list_inter a b) -> In x a /\ In x 
 Proof. exact list_inter_common. Qed.
 Print Assumptions C16_list_common.
 
+(* maximal: nothing shared is dropped — every value occurs in the result as often as in the input that has fewer of it *)
+Theorem C16_list_maximal : forall x a b, cnt x (list_inter a b) = Nat.min (cnt x a) (cnt x b).
+Proof. exact list_inter_count. Qed.
+Print Assumptions C16_list_maximal.
+
 (* every key bkli keeps is present in both inputs and carries the intersection of the two values *)
 Theorem C16_map_common : forall am bm k x, In (k, x) (map_of_value (intersect (VMap am) (VMap bm))) ->
   exists va vb, In (k, va) am /\ lookup k bm = Some vb /\ (x = intersect va vb \/ (x = VNull /\ va = VNull /\ vb = VNull)).
